@@ -437,14 +437,16 @@ class ParseContext(ParserEngine):
         self._right_join(cl.func, cl.sep_func)
 
     def left_join(self, exp: Func, sep: Func) -> Any:
-        self.cst = left_assoc(self.positive_join(exp, sep))
-        return self.cst
+        with self.statescope():
+            self.cst = cst = left_assoc(self.positive_join(exp, sep))
+            return cst
 
     _left_join = left_join
 
     def right_join(self, exp: Func, sep: Func) -> Any:
-        self.cst = right_assoc(self.positive_join(exp, sep))
-        return self.cst
+        with self.statescope():
+            self.cst = cst = right_assoc(self.positive_join(exp, sep))
+            return cst
 
     _right_join = right_join
 
